@@ -1575,6 +1575,9 @@ func TestCheck(t *testing.T) {
 	}
 	pool := vlib.NewPool()
 	pool.CaseTimeout = 5 * time.Minute
+	if !run.Thorough() {
+		pool.CaseTimeout = time.Minute // a quick case takes seconds; one that hangs is run again alone with four times this
+	}
 	defer pool.Close()
 	anyCases := make([]any, len(cases))
 	for i := range cases {
